@@ -159,7 +159,7 @@ let run_case (c : case) =
   let logs = simulate cfg comb (nat_of_int c.steps) in
   List.iter (fun lg ->
       let clk = List.sort compare (List.map (fun ((p, r), k) -> (int_of_nat p, r, int_of_n k)) lg.lg_clk) in
-      let rst = List.sort compare (List.map (fun (p, l) -> (int_of_nat p, l)) lg.lg_rst) in
+      let rst = List.stable_sort (fun (a, _) (b, _) -> compare a b) (List.map (fun (p, l) -> (int_of_nat p, l)) lg.lg_rst) in
       Printf.printf "T %s C %s R %s V%s\n" (string_of_q lg.lg_time)
         (if clk = [] then "-" else String.concat "," (List.map (fun (p, r, k) -> Printf.sprintf "%d:%s:%d" p (if r then "r" else "f") k) clk))
         (if rst = [] then "-" else String.concat "," (List.map (fun (p, l) -> Printf.sprintf "%d:%d" p (if l then 1 else 0)) rst))
